@@ -168,6 +168,11 @@ type FuncSpec struct {
 	KeepCtx  bool
 	Closures bool
 	Ignore   []string
+	// ---- (C14 deep 5) Wrap64 (default off): the function computes with int64 values (time.Duration, Unix seconds): the BINARY operators
+	// `+`, `-`, `*` are Go's int64 operations, which wrap around: `(Go.wrap64 (a op b))` (conversions `time.Duration(e)` / `int64(e)` stay the
+	// identity, `t.Unix()` stays the exact floor division); `t.Sub(u)` is Go's SATURATING difference `Go.tSubSat`. Unary minus is left exact
+	// (it only differs for math.MinInt64). A flagged function must not use `+` on strings. Model/Int64C14.lean has the vocabulary.
+	Wrap64 bool
 	// ---- (C02) LoopStyle "ctl": a range loop whose body BOTH updates variables S of the enclosing function and leaves early
 	// (`return`, `break`, `continue`):  match GoX.loopCtl X S (fun S v => body) with | .inl r => r | .inr S => rest, the body ending in
 	// GoX.Ctl.next S (fall through / continue), GoX.Ctl.brk S (break) or GoX.Ctl.ret r (return).
@@ -724,10 +729,19 @@ func (t *tr) expr(e ast.Expr) string {
 		case token.GEQ:
 			return "(decide (" + a + " ≥ " + b + "))"
 		case token.ADD:
+			if t.spec.Wrap64 {
+				return "(Go.wrap64 (" + a + " + " + b + "))"
+			}
 			return "(" + a + " + " + b + ")"
 		case token.SUB:
+			if t.spec.Wrap64 {
+				return "(Go.wrap64 (" + a + " - " + b + "))"
+			}
 			return "(" + a + " - " + b + ")"
 		case token.MUL:
+			if t.spec.Wrap64 {
+				return "(Go.wrap64 (" + a + " * " + b + "))"
+			}
 			return "(" + a + " * " + b + ")"
 		case token.SHL:
 			if t.spec.Imperative {
@@ -1158,6 +1172,9 @@ func (t *tr) call(c *ast.CallExpr) string {
 			return recv // r.WithContext(ctx): contexts are not modelled
 		}
 		if lf, ok := methodMap[m]; ok {
+			if t.spec.Wrap64 && m == "Sub" {
+				lf = "Go.tSubSat"
+			}
 			if len(c.Args) == 0 {
 				return "(" + lf + " " + recv + ")"
 			}
